@@ -297,8 +297,13 @@ namespace BitSerializer::Convert::Detail
 			{
 				if (buf != end && (std::isdigit(*buf) || isYear))
 				{
-					if (isYear && *buf == '+') {
+					if (isYear && *buf == '+')
+					{
 						++buf;
+						// Only digits may follow the plus sign ("+-1970" is not a year)
+						if (buf == end || !std::isdigit(static_cast<unsigned char>(*buf))) {
+							throw std::invalid_argument("Input string is not a valid ISO datetime: YYYY-MM-DDThh:mm:ss[.SSS]Z");
+						}
 					}
 					const std::from_chars_result result = std::from_chars(buf, end, outValue);
 					if (result.ec == std::errc())
